@@ -614,6 +614,18 @@ def run(sc):
                 # does a lagging node at least hold the entry (it only never learned the commit), or did it never get it?
                 lacks = [x.name for x in nodes if x.name in lagging and all(e.command != cmd for e in x.log.entries_after(0))]
                 kind = "not-applied-everywhere/follower-lacks-entry" if lacks else "not-applied-everywhere"
+                if not lacks:
+                    # cause visible in the history: the node that leads at the end inherited the slot (it did not take the
+                    # command from the client), re-replicated it, got acks from q2-1 peers and still did not commit it,
+                    # because it never counts itself for a slot it did not assign
+                    for L in nodes:
+                        if L.is_leader and L is not nd:
+                            idxs = [e.index for e in L.log.entries_after(0) if e.command == cmd]
+                            if idxs and idxs[0] > L.log.commit_index:
+                                a = ack_msgs.get((L.name, idxs[0]), 0)
+                                if a < q2 <= a + 1:
+                                    kind += "/new-leader-does-not-count-itself-for-inherited-slot"
+                                    break
                 bad = (kind, f"command {cmd!r} submitted to established leader {nd.name} was never applied at {lagging}"
                              + (f"; {lacks} do not even hold the entry in their log" if lacks else " (they hold the entry)"))
             elif not fut.is_resolved and not sc.get("quiet_tail"):
